@@ -284,7 +284,8 @@ fn run_schedule<V: VringT<dmn::Mem> + Clone + Send + Sync + 'static>(cfg: &Cfg, 
         let _ = final_kick.write(1);
     }
     // (a pending kick on a registered descriptor wakes the worker, so "parked + log stable" is final)
-    let quiet = s.quiesce();
+    let q = s.quiesce_ex();
+    let quiet = q == dmn::Quiet::Yes;
     let dbg_log = c.log();
     c.reset();
     if std::env::var("C12_DEBUG").is_ok() {
@@ -317,17 +318,21 @@ fn run_schedule<V: VringT<dmn::Mem> + Clone + Send + Sync + 'static>(cfg: &Cfg, 
         );
         return;
     }
-    if !call_errors.is_empty() || !quiet {
-        report::inconclusive(&format!("schedule {case}: control call failed or no quiescence: {call_errors:?}"));
+    if !call_errors.is_empty() {
+        report::inconclusive(&format!("schedule {case}: control call failed: {call_errors:?}"));
         return;
     }
-    // safety
+    // safety (also judged when the system did not settle: a dispatch storm after the stop reply
+    // is exactly what this clause forbids)
     let post_stop: Vec<u64> = evs.iter().map(|e| e.seq).filter(|s| *s > t_deact_reply && *s < t_react_sent).collect();
     if !post_stop.is_empty() {
         // which window: had the worker already read the kick (and decided to dispatch) when the
         // control path changed the ring state, or did it decide afterwards?
         let pos = |t: &str| trace.iter().position(|x| x == t);
-        let class = match (pos("W1"), pos("D1")) {
+        // (SET_VRING_ENABLE 0 / RESET_DEVICE are observed by the worker when it reads the kick, i.e.
+        // right after W1; GET_VRING_BASE is observed by the started-check after the kick was read, W2)
+        let decision = if scen == Scen::StopRestart { "W2" } else { "W1" };
+        let class = match (pos(decision), pos("D1")) {
             (Some(w), Some(d)) if w < d => "decided-before-state-change",
             _ => "decided-after-state-change",
         };
@@ -337,6 +342,14 @@ fn run_schedule<V: VringT<dmn::Mem> + Clone + Send + Sync + 'static>(cfg: &Cfg, 
             "stamps" => jo!{"kick_raised" => t_kick, "deactivation_reply_read_by_peer" => t_deact_reply, "reactivation_sent" => t_react_sent, "handle_event_entries" => evs.iter().map(|e| e.seq).collect::<Vec<u64>>()}},
             cfg.replay(case),
         );
+        return;
+    }
+    if !quiet {
+        if q == dmn::Quiet::Storm {
+            report::violation(&format!("C12:{scen:?}:dispatch-storm"), jo! {"scenario" => format!("{scen:?}"), "vring" => vname, "schedule" => sched, "observed_interleaving" => trace.clone(), "handle_event_entries" => evs.len()}, cfg.replay(case));
+        } else {
+            report::inconclusive(&format!("schedule {case}: no quiescence"));
+        }
         return;
     }
     // progress
